@@ -317,6 +317,7 @@ proof fn lemma_searches_ok_cw<V>(n: NfaBuilder<char, V>, st: Seq<State>, tb: Seq
         theorem_c02_cw(n, st, tb, asz, idmap, hay);
     }
 }
+#[verifier::opaque]
 spec fn cwv_post<P: AsRef<str>, V>(st: Seq<State>, tb: Seq<u32>, outs: Seq<Output<V>>, num_states: u32, items: Seq<(P, V)>, kind: MatchKind) -> bool {
     &&& pats_valid(items)
     &&& cw_wf(st, tb, lm_of(kind)) && outs_ok_cw(st, outs)
@@ -337,6 +338,7 @@ proof fn lemma_cwv_post<P: AsRef<str>, V>(nfa: NfaBuilder<char, V>, st: Seq<Stat
         nfa.states@.len() == num_states + 1,
     ensures cwv_post(st, tb, nfa.outputs@, num_states, items, kind),
 {
+    reveal(cwv_post);
     let idmap = choose|idmap: Seq<u32>| cw_built(st, tb, nfa, idmap);
     lemma_encodes_gives_wf(nfa, st, tb, asz, bl, idmap, lm_of(kind));
     lemma_built_outs_ok_cw(st, tb, nfa, idmap);
